@@ -14,7 +14,7 @@ C(name) == [t |-> "v", name |-> name]
 One == Q(1, 1)
 Systems == {"METRIC", "FIELD", "LAB", "PVT-M"}
 \* physical constants as terms
-Foot == C("foot")   Inch == C("inch")   Metre == One   Centi == Q(1, 100)
+Foot == C("foot")   Inch == C("inch")   Metre == One   Centi == C("centi")
 Day == C("day")     Hour == C("hour")   Second == One
 Pound == C("pound") Kilo == One         Gram == Q(1, 1000)
 Bar == C("bar")     Atm == C("atm")
